@@ -13,6 +13,8 @@ import (
 	"github.com/ipld/go-ipld-prime/datamodel"
 	cidlink "github.com/ipld/go-ipld-prime/linking/cid"
 
+	"github.com/ipfs/go-cid"
+	"github.com/ipfs/go-unixfsnode/data/builder"
 	"verif/harness/core"
 	"verif/harness/gen"
 	"verif/harness/model"
@@ -260,7 +262,76 @@ func c01Concurrent(r *core.Run) {
 	noteDegraded(r)
 }
 
+// c01Framing: the round trip through a link system whose raw codec frames its
+// blocks (lsFraming): what a file declares and reports as its length is the
+// length of its content, not of what was stored for it.
+func c01Framing(r *core.Run) {
+	for _, fc := range []fileCase{
+		{Writer: "ours", W: 2, Chunker: "size-3", L: 7, K: 3, Pattern: "distinct"},
+		{Writer: "ours", W: 2, Chunker: "size-3", L: 16, K: 3, Pattern: "distinct"},
+		{Writer: "ours", W: 3, Chunker: "size-2", L: 23, K: 2, Pattern: "distinct"},
+		{Writer: "ours", W: 174, Chunker: "size-1", L: 40, K: 1, Pattern: "distinct"},
+		{Writer: "ours", W: 2, Chunker: "size-3", L: 3, K: 3, Pattern: "distinct"},
+		{Writer: "ours", W: 2, Chunker: "size-3", L: 0, K: 3, Pattern: "distinct"},
+	} {
+		s := store.New()
+		ls := lsFraming(s)
+		content := fc.content()
+		var root cid.Cid
+		var err error
+		gen.WithWidth(fc.W, func() {
+			var l ipld.Link
+			l, _, err = builder.BuildUnixFSFile(bytes.NewReader(content), fc.Chunker, ls)
+			if err == nil && l != nil {
+				root = l.(cidlink.Link).Cid
+			}
+		})
+		r.Evaluations.Add(1)
+		desc := fmt.Sprintf("file %s through a link system whose raw codec frames every block", fc)
+		if err != nil || !root.Defined() {
+			r.Violate("build-error framing", fmt.Sprintf("%s: %v", desc, err), nil)
+			continue
+		}
+		if blk, err := model.Load(s, root); err == nil && blk.FS != nil && blk.PB != nil {
+			if blk.FS.Filesize == nil || int(blk.FS.GetFilesize()) != len(content) {
+				r.Violate("declared-filesize framing", fmt.Sprintf("%s: root FileSize=%d, the content has %d bytes", desc, blk.FS.GetFilesize(), len(content)), nil)
+			}
+			sum := uint64(0)
+			for _, b := range blk.FS.Blocksizes {
+				sum += b
+			}
+			if len(blk.PB.Links) > 0 && sum != uint64(len(content)) {
+				r.Violate("declared-blocksizes framing", fmt.Sprintf("%s: root BlockSizes %v sum to %d, the content has %d bytes", desc, blk.FS.Blocksizes, sum, len(content)), nil)
+			}
+		}
+		for _, how := range []string{"unixfs", "unixfs-preload"} {
+			rn, err := loadRoot(ls, root)
+			if err != nil {
+				r.Violate("load-root framing", desc+": "+err.Error(), nil)
+				break
+			}
+			n, err := openVia(how, ls, rn)
+			if err != nil {
+				r.Violate("open-error framing "+how, desc+": "+err.Error(), nil)
+				continue
+			}
+			r.Transitions.Add(1)
+			if got, err := n.AsBytes(); err != nil || !bytes.Equal(got, content) {
+				r.Violate("asbytes framing "+how, fmt.Sprintf("%s: err=%v got %s want %s", desc, err, clip(got, 24), clip(content, 24)), nil)
+			}
+			if lb, ok := n.(datamodel.LargeBytesNode); ok {
+				if rs, err := lb.AsLargeBytes(); err == nil {
+					if end, err := rs.Seek(0, io.SeekEnd); err != nil || end != int64(len(content)) {
+						r.Violate("seek-end framing "+how, fmt.Sprintf("%s: Seek(0,End)=(%d,%v), the content has %d bytes", desc, end, err, len(content)), nil)
+					}
+				}
+			}
+		}
+	}
+}
+
 func runC01(r *core.Run) {
+	c01Framing(r)
 	c01Concurrent(r)
 	r.Rule("bounded-exhaustive: every chunk count 0..w^3+w+1 per width (all balanced shapes incl. w^k boundaries), last chunk full/short/1-byte, patterns distinct+equal, chunkers size-K; writers = this builder + reference importer {balanced,trickle}x{raw,pb leaves}x{v0,v1}; each DAG opened through NewUnixFSFile/Reify/unixfs/unixfs-preload and read whole + streamed with every buffer size; a case is distinct by (writer,width,chunker,length,pattern)")
 	r.Assume("byte values limited to two content patterns; bufio-free readers only")
